@@ -286,6 +286,39 @@ pub fn run(a: &Args) -> Report {
         rep.merge(r1b);
     }
 
+    // 1c. every Rust keyword (strict, reserved, weak, path keywords), plain and behind the raw prefix: the grammar of the
+    //     property is lexical, so all of them are identifiers; also as members of lists and as arguments of Path::new
+    {
+        let mut r1c = Report::default();
+        let kws = ["as", "break", "const", "continue", "crate", "else", "enum", "extern", "false", "fn", "for", "if", "impl", "in", "let", "loop", "match", "mod", "move", "mut", "pub", "ref",
+                   "return", "self", "Self", "static", "struct", "super", "trait", "true", "type", "unsafe", "use", "where", "while", "async", "await", "dyn", "abstract", "become", "box", "do",
+                   "final", "macro", "override", "priv", "typeof", "unsized", "virtual", "yield", "try", "gen", "union", "macro_rules", "raw", "safe", "auto", "default", "_"];
+        let mut forms: Vec<&'static str> = Vec::new();
+        for k in kws {
+            forms.push(k);
+            for f in [format!("r#{}", k), format!("{}_", k), format!("r#{}_", k), format!("r#{}ish", k), k.to_uppercase(), format!("r#{}", k.to_uppercase()), format!("_{}", k)] {
+                forms.push(leak(f));
+            }
+        }
+        for f in &forms {
+            check_segments(&[f], &mut r1c, "keyword");
+            check_segments(&["a", f, "Z"], &mut r1c, "keyword");
+            check_segments(&[f, f], &mut r1c, "keyword");
+            // the first offender is reported even when keywords precede it
+            check_segments(&[f, "r#x", "1x"], &mut r1c, "keyword");
+            check_segments(&["1x", f], &mut r1c, "keyword");
+            check_new(f, "a::b", &[], &mut r1c);
+            check_new("T", leak(format!("{}::x", f)), &[], &mut r1c);
+            check_new("T", leak(format!("x::{}", f)), &[], &mut r1c);
+            check_new(f, leak(format!("{}::{}", f, f)), &[], &mut r1c);
+            check_new("Planet", "hello::world", &[("world", f)], &mut r1c);
+            check_new("Planet", "hello::world", &[("hello", f), ("Planet", f)], &mut r1c);
+            check_new(f, "hello::world", &[(f, "renamed")], &mut r1c);
+            r1c.count("keyword_forms", 1);
+        }
+        rep.merge(r1c);
+    }
+
     // 2. all segment lists of length <= 3 over the pool
     let pool = pool();
     let n = pool.len() as u64;
@@ -347,7 +380,24 @@ pub fn run(a: &Args) -> Report {
             s
         };
         for _ in 0..nt {
-            let k = if rng.chance(3, 4) { *rng.pick(&segs) } else { *rng.pick(&pool) };
+            let k = if rng.chance(1, 5) {
+                // a key that is a piece of the module path / identifier argument itself (same memory): it starts where a
+                // segment starts and ends anywhere. Only its text may matter.
+                let src: &'static str = if rng.chance(1, 4) { id } else { m };
+                let mut starts: Vec<usize> = vec![0];
+                let mut from = 0;
+                while let Some(p) = src[from..].find("::") {
+                    starts.push(from + p + 2);
+                    from += p + 2;
+                }
+                let st = *rng.pick(&starts);
+                let mut en = st + rng.below(src.len() - st + 1);
+                while !src.is_char_boundary(en) {
+                    en += 1;
+                }
+                rep.count("replace_keys_cut_from_the_arguments", 1);
+                &src[st..en]
+            } else if rng.chance(3, 4) { *rng.pick(&segs) } else { *rng.pick(&pool) };
             if table.iter().any(|t| t.0 == k) {
                 continue;
             }
